@@ -1,6 +1,6 @@
 (* C19 - proofs about model/Hashers.v: every batched update path equals the fold of the
    one-position update over the same positions. *)
-From Coq Require Import NArith List Bool Lia.
+From Coq Require Import NArith ZArith List Bool Lia.
 From V Require Import lib.Words lib.Finite proofs.Bitops gen.GenHashers model.Hashers spec.HasherSpec.
 Import ListNotations.
 Open Scope N_scope.
@@ -64,21 +64,40 @@ Qed.
 Lemma range_0_succ n : range 0 (N.succ n) = range 0 n ++ [n].
 Proof. rewrite (range_split 0 n (N.succ n)) by lia. f_equal. unfold range. replace (N.succ n - n) with 1 by lia. reflexivity. Qed.
 
+(* an invariant of the state that every one-position update preserves *)
+Lemma for_each_inv {S} (P : S -> Prop) (store : S -> N -> res S) l :
+  (forall st q st', P st -> store st q = Ok st' -> P st') ->
+  forall st st', P st -> for_each store l (Ok st) = Ok st' -> P st'.
+Proof.
+  intros Hpres. induction l as [|x l IH]; intros st st' HP H.
+  - cbn in H. injection H as <-. exact HP.
+  - rewrite for_each_cons in H. cbn [bind] in H. destruct (store st x) as [s1|] eqn:E1.
+    + apply (IH s1 st'); [eapply Hpres; eassumption|exact H].
+    + rewrite for_each_Panic in H. discriminate.
+Qed.
+
 (* a loop over n chunks of c positions, each chunk equal to the one-at-a-time loop over its
    positions, is the one-at-a-time loop over all n * c positions *)
+Lemma chunks_eq_inv {S} (P : S -> Prop) (store quad : S -> N -> res S) (s0 c n : N) (st : S) :
+  (forall st q st', P st -> store st q = Ok st' -> P st') -> P st ->
+  (forall st' k, P st' -> k < n -> quad st' (s0 + k * c) = for_each store (range (s0 + k * c) (s0 + k * c + c)) (Ok st')) ->
+  for_each (fun s k => quad s (s0 + k * c)) (range 0 n) (Ok st) = for_each store (range s0 (s0 + n * c)) (Ok st).
+Proof.
+  intros Hpres HP. induction n as [|n IH] using N.peano_ind; intros Hq.
+  - rewrite N.mul_0_l, N.add_0_r. rewrite (range_empty s0 s0) by lia. reflexivity.
+  - rewrite range_0_succ, for_each_app. rewrite IH by (intros; apply Hq; [assumption|lia]).
+    rewrite (range_split s0 (s0 + n * c) (s0 + N.succ n * c)) by lia.
+    rewrite for_each_app.
+    destruct (for_each store (range s0 (s0 + n * c)) (Ok st)) as [s1|] eqn:E1.
+    + cbn [for_each fold_left bind]. rewrite Hq; [|eapply (for_each_inv P store); eassumption|lia].
+      f_equal. f_equal. lia.
+    + rewrite !for_each_Panic. reflexivity.
+Qed.
+
 Lemma chunks_eq {S} (store quad : S -> N -> res S) (s0 c n : N) (st : S) :
   (forall st' k, k < n -> quad st' (s0 + k * c) = for_each store (range (s0 + k * c) (s0 + k * c + c)) (Ok st')) ->
   for_each (fun s k => quad s (s0 + k * c)) (range 0 n) (Ok st) = for_each store (range s0 (s0 + n * c)) (Ok st).
-Proof.
-  induction n as [|n IH] using N.peano_ind; intros Hq.
-  - rewrite N.mul_0_l, N.add_0_r. rewrite (range_empty s0 s0) by lia. reflexivity.
-  - rewrite range_0_succ, for_each_app. rewrite IH by (intros; apply Hq; lia).
-    rewrite (range_split s0 (s0 + n * c) (s0 + N.succ n * c)) by lia.
-    rewrite for_each_app.
-    destruct (for_each store (range s0 (s0 + n * c)) (Ok st)) as [s1|].
-    + cbn [for_each fold_left bind]. rewrite Hq by lia. f_equal. f_equal. lia.
-    + rewrite !for_each_Panic. reflexivity.
-Qed.
+Proof. intros H. apply (chunks_eq_inv (fun _ => True)); auto. Qed.
 
 (* `r <- opt;; loop over the rest`, where opt did the first part one-at-a-time *)
 Lemma prefix_then_rest {S} (store : S -> N -> res S) (s m e : N) (st : S) (first : res S) :
@@ -303,4 +322,677 @@ Proof.
   apply (pieces_eq _ _ s (last_cut s cuts)); [|lia|exact Hasc|lia].
   intros st' a b Hsa Hab Hb. apply basic_bulk_eq; [exact Hp|].
   intros Hlt. apply (view_mono d mask 10 (last_cut s cuts + 7)); [apply Hv; lia|lia].
+Qed.
+
+(* ------------------------------------------------------------------------------------------ *)
+(* little-endian words as sums; the k-th 32-bit window of a 7-byte word *)
+Lemma byte_lt d a : byte d a < 256.
+Proof. unfold byte. change 255 with (2 ^ 8 - 1). rewrite land_ones_mod. apply N.mod_upper_bound. discriminate. Qed.
+
+Lemma lor_sum acc b k : acc < 2 ^ k -> N.lor acc (N.shiftl b k) = acc + b * 2 ^ k.
+Proof. intros H. rewrite (lor_small_shiftl b k acc H). lia. Qed.
+
+Lemma le32_sum d a :
+  le32 d a = byte d a + byte d (a + 1) * 2 ^ 8 + byte d (a + 2) * 2 ^ 16 + byte d (a + 3) * 2 ^ 24.
+Proof.
+  unfold le32.
+  pose proof (byte_lt d a). pose proof (byte_lt d (a + 1)). pose proof (byte_lt d (a + 2)).
+  rewrite (lor_sum (byte d a) _ 8) by (change (2 ^ 8) with 256; lia).
+  rewrite (lor_sum _ _ 16) by (change (2 ^ 8) with 256; change (2 ^ 16) with 65536; lia).
+  rewrite (lor_sum _ _ 24) by (change (2 ^ 8) with 256; change (2 ^ 16) with 65536; change (2 ^ 24) with 16777216; lia).
+  reflexivity.
+Qed.
+
+Lemma le56_sum d a :
+  le56 d a = byte d a + byte d (a + 1) * 2 ^ 8 + byte d (a + 2) * 2 ^ 16 + byte d (a + 3) * 2 ^ 24
+             + byte d (a + 4) * 2 ^ 32 + byte d (a + 5) * 2 ^ 40 + byte d (a + 6) * 2 ^ 48.
+Proof.
+  unfold le56.
+  pose proof (byte_lt d a). pose proof (byte_lt d (a + 1)). pose proof (byte_lt d (a + 2)).
+  pose proof (byte_lt d (a + 3)). pose proof (byte_lt d (a + 4)). pose proof (byte_lt d (a + 5)).
+  change (2 ^ 8) with 256. change (2 ^ 16) with 65536. change (2 ^ 24) with 16777216.
+  change (2 ^ 32) with 4294967296. change (2 ^ 40) with 1099511627776. change (2 ^ 48) with 281474976710656.
+  rewrite (lor_sum (byte d a) _ 8) by (change (2 ^ 8) with 256; lia).
+  rewrite (lor_sum _ _ 16) by (change (2 ^ 8) with 256; change (2 ^ 16) with 65536; lia).
+  rewrite (lor_sum _ _ 24) by (change (2 ^ 8) with 256; change (2 ^ 16) with 65536; change (2 ^ 24) with 16777216; lia).
+  rewrite (lor_sum _ _ 32) by (change (2 ^ 8) with 256; change (2 ^ 16) with 65536; change (2 ^ 24) with 16777216; change (2 ^ 32) with 4294967296; lia).
+  rewrite (lor_sum _ _ 40) by (change (2 ^ 8) with 256; change (2 ^ 16) with 65536; change (2 ^ 24) with 16777216; change (2 ^ 32) with 4294967296; change (2 ^ 40) with 1099511627776; lia).
+  rewrite (lor_sum _ _ 48) by (change (2 ^ 8) with 256; change (2 ^ 16) with 65536; change (2 ^ 24) with 16777216; change (2 ^ 32) with 4294967296; change (2 ^ 40) with 1099511627776; change (2 ^ 48) with 281474976710656; lia).
+  change (2 ^ 8) with 256. change (2 ^ 16) with 65536. change (2 ^ 24) with 16777216.
+  change (2 ^ 32) with 4294967296. change (2 ^ 40) with 1099511627776. change (2 ^ 48) with 281474976710656.
+  reflexivity.
+Qed.
+
+Lemma le32_lt d a : le32 d a < 2 ^ 32.
+Proof.
+  rewrite le32_sum.
+  pose proof (byte_lt d a). pose proof (byte_lt d (a + 1)). pose proof (byte_lt d (a + 2)). pose proof (byte_lt d (a + 3)).
+  change (2 ^ 8) with 256. change (2 ^ 16) with 65536. change (2 ^ 24) with 16777216. change (2 ^ 32) with 4294967296. lia.
+Qed.
+
+Ltac Zify.zify_post_hook ::= Z.to_euclidean_division_equations.
+Lemma window_arith b0 b1 b2 b3 b4 b5 b6 :
+  b0 < 256 -> b1 < 256 -> b2 < 256 -> b3 < 256 -> b4 < 256 -> b5 < 256 -> b6 < 256 ->
+  let W := b0 + b1 * 256 + b2 * 65536 + b3 * 16777216 + b4 * 4294967296 + b5 * 1099511627776 + b6 * 281474976710656 in
+  W mod 4294967296 = b0 + b1 * 256 + b2 * 65536 + b3 * 16777216 /\
+  (W / 256) mod 4294967296 = b1 + b2 * 256 + b3 * 65536 + b4 * 16777216 /\
+  (W / 65536) mod 4294967296 = b2 + b3 * 256 + b4 * 65536 + b5 * 16777216 /\
+  (W / 16777216) mod 4294967296 = b3 + b4 * 256 + b5 * 65536 + b6 * 16777216.
+Proof. intros. subst W. repeat split; lia. Qed.
+Ltac Zify.zify_post_hook ::= idtac.
+
+Lemma le56_window d a :
+  N.land (le56 d a) M32 = le32 d a /\
+  N.land (N.shiftr (le56 d a) 8) M32 = le32 d (a + 1) /\
+  N.land (N.shiftr (le56 d a) 16) M32 = le32 d (a + 2) /\
+  N.land (N.shiftr (le56 d a) 24) M32 = le32 d (a + 3).
+Proof.
+  rewrite le56_sum, !le32_sum.
+  replace (a + 1 + 1) with (a + 2) by lia. replace (a + 1 + 2) with (a + 3) by lia.
+  replace (a + 1 + 3) with (a + 4) by lia. replace (a + 2 + 1) with (a + 3) by lia.
+  replace (a + 2 + 2) with (a + 4) by lia. replace (a + 2 + 3) with (a + 5) by lia.
+  replace (a + 3 + 1) with (a + 4) by lia. replace (a + 3 + 2) with (a + 5) by lia.
+  replace (a + 3 + 3) with (a + 6) by lia.
+  change M32 with (2 ^ 32 - 1). rewrite !land_ones_mod, !N.shiftr_div_pow2.
+  change (2 ^ 8) with 256. change (2 ^ 16) with 65536. change (2 ^ 24) with 16777216.
+  change (2 ^ 32) with 4294967296. change (2 ^ 40) with 1099511627776. change (2 ^ 48) with 281474976710656.
+  apply window_arith; apply byte_lt.
+Qed.
+
+(* ------------------------------------------------------------------------------------------ *)
+(* AdvHasher, the kinds with a 4-byte hash (H5, H5q5, H5q7) *)
+Definition adv32_ok (sp : adv_spec) : Prop :=
+  ak sp <> AK_H6 /\ block_bits sp <= hash_shift sp /\ hash_shift sp <= 32.
+
+Lemma adv32_consts sp : ak sp <> AK_H6 ->
+  get_hash_mask sp = M32 /\ get_k_hash_mul sp = kHashMul32 /\ store_lookahead sp = 4.
+Proof. unfold get_hash_mask, get_k_hash_mul, store_lookahead. destruct (ak sp); intros H; try (repeat split; reflexivity). congruence. Qed.
+
+(* key of a 32-bit window *)
+Definition mixk (sp : adv_spec) (w : N) : N := N.shiftr (N.land (w * kHashMul32) M32) (hash_shift sp).
+
+Lemma mix_window_ok sp w : ak sp <> AK_H6 -> w < 2 ^ 32 -> mix_window sp w = Ok (mixk sp w).
+Proof.
+  intros Hk Hw. destruct (adv32_consts sp Hk) as [E1 [E2 _]].
+  unfold mix_window, mul_u64, mixk. rewrite E1, E2. cbn zeta.
+  change (2 ^ 32) with 4294967296 in Hw.
+  destruct (N.leb_spec (w * kHashMul32) M64) as [_|Hbad]; [reflexivity|].
+  exfalso. unfold kHashMul32, M64 in Hbad. lia.
+Qed.
+
+Lemma mixk_small sp w : hash_shift sp <= 32 -> mixk sp w * 2 ^ hash_shift sp < 2 ^ 32.
+Proof.
+  intros Hs. unfold mixk. rewrite N.shiftr_div_pow2.
+  pose proof (lo32_lt (w * kHashMul32)) as Hl. unfold lo32 in Hl.
+  remember (N.land (w * kHashMul32) M32) as y. remember (2 ^ hash_shift sp) as P.
+  assert (P <> 0) by (subst P; apply N.pow_nonzero; discriminate).
+  pose proof (N.mul_div_le y P ltac:(assumption)). lia.
+Qed.
+
+Lemma mixk_lt32 sp w : mixk sp w < 2 ^ 32.
+Proof.
+  unfold mixk. rewrite N.shiftr_div_pow2.
+  pose proof (lo32_lt (w * kHashMul32)) as Hl. unfold lo32 in Hl.
+  eapply N.le_lt_trans; [|exact Hl]. apply N.div_le_upper_bound; [apply N.pow_nonzero; discriminate|].
+  assert (Hnz : 2 ^ hash_shift sp <> 0) by (apply N.pow_nonzero; discriminate).
+  remember (2 ^ hash_shift sp) as P eqn:EP. clear EP.
+  remember (N.land (w * kHashMul32) M32) as y eqn:Ey. clear Ey. nia.
+Qed.
+
+(* one update of (num, buckets) at a given key *)
+Definition adv_put (sp : adv_spec) (nb : table * table) (kv : N * N) : res (table * table) :=
+  x <- tget (fst nb) (fst kv);;
+  b <- tset (snd nb) (N.shiftl (fst kv) (block_bits sp) + N.land x (block_mask sp)) (lo32 (snd kv));;
+  n <- tset (fst nb) (fst kv) (lo16 (x + 1));;
+  Ok (n, b).
+Definition adv_puts (sp : adv_spec) (l : list (N * N)) (nb : table * table) : res (table * table) :=
+  fold_left (fun acc kv => bind acc (fun s => adv_put sp s kv)) l (Ok nb).
+Definition adv_with (st : adv_state) (nb : table * table) : adv_state :=
+  {| a_common := a_common st; a_spec := a_spec st; a_num := fst nb; a_buckets := snd nb |}.
+
+Lemma adv_puts_cons sp kv l nb :
+  adv_puts sp (kv :: l) nb = (s <- adv_put sp nb kv;; adv_puts sp l s).
+Proof.
+  unfold adv_puts. cbn [fold_left bind]. destruct (adv_put sp nb kv) as [s|]; cbn [bind]; [reflexivity|].
+  induction l as [|x l IH]; [reflexivity|exact IH].
+Qed.
+
+Definition K (sp : adv_spec) (d : buf) (mask q : N) : N := mixk sp (le32 d (N.land q mask)).
+
+Lemma adv_store_view d mask T lim st q : adv32_ok (a_spec st) -> view_ok d mask T lim -> 3 <= T -> q + 3 < lim ->
+  adv_store d mask st q =
+  (r <- adv_put (a_spec st) (a_num st, a_buckets st) (K (a_spec st) d mask q, q);; Ok (adv_with st r)).
+Proof.
+  intros [Hk [Hbb Hsh]] Hv HT Hq. destruct (adv32_consts _ Hk) as [E1 [E2 _]].
+  pose proof (le32_lt d (N.land q mask)) as Hw.
+  pose proof (mix_window_ok (a_spec st) _ Hk Hw) as Hm. unfold mix_window in Hm. rewrite E1, E2 in Hm.
+  pose proof (mixk_small (a_spec st) (le32 d (N.land q mask)) Hsh) as Hs.
+  assert (Hshl : N.shiftl (mixk (a_spec st) (le32 d (N.land q mask))) (block_bits (a_spec st)) < 2 ^ 32).
+  { rewrite N.shiftl_mul_pow2. eapply N.le_lt_trans; [|exact Hs]. apply N.mul_le_mono_l.
+    apply N.pow_le_mono_r; [discriminate|exact Hbb]. }
+  assert (Hmix : load_and_mix_word (a_spec st) d (N.land q mask)
+                 = (m <- mul_u64 (le32 d (N.land q mask)) kHashMul32;; Ok (N.land m M32))).
+  { unfold load_and_mix_word. rewrite E1, E2.
+    destruct (ak (a_spec st)); try congruence; rewrite (load32_view d mask T lim q Hv HT Hq); reflexivity. }
+  unfold adv_store, adv_hash_bytes, adv_put, K. rewrite Hmix. cbn [fst snd].
+  destruct (mul_u64 (le32 d (N.land q mask)) kHashMul32) as [m|] eqn:Em; cbn [bind] in Hm |- *; [|discriminate].
+  injection Hm as Hm. rewrite Hm. rewrite (lo32_small _ (mixk_lt32 _ _)). rewrite (lo32_small _ Hshl).
+  destruct (tget (a_num st) (mixk (a_spec st) (le32 d (N.land q mask)))) as [x|]; cbn [bind]; [|reflexivity].
+  rewrite (N.add_comm (N.land x _)).
+  destruct (tset (a_buckets st) _ (lo32 q)) as [b|]; cbn [bind]; [|reflexivity].
+  destruct (tset (a_num st) _ _) as [n|]; cbn [bind]; reflexivity.
+Qed.
+
+Lemma adv_stores_puts d mask T lim l : view_ok d mask T lim -> 3 <= T ->
+  forall st, adv32_ok (a_spec st) -> (forall q, In q l -> q + 3 < lim) ->
+  for_each (adv_store d mask) l (Ok st) =
+  (r <- adv_puts (a_spec st) (map (fun q => (K (a_spec st) d mask q, q)) l) (a_num st, a_buckets st);; Ok (adv_with st r)).
+Proof.
+  intros Hv HT. induction l as [|q l IH]; intros st Hok Hl.
+  - cbn. unfold adv_with. destruct st; reflexivity.
+  - rewrite for_each_cons. cbn [bind map]. rewrite adv_puts_cons.
+    rewrite (adv_store_view d mask T lim st q Hok Hv HT) by (apply Hl; left; reflexivity).
+    destruct (adv_put (a_spec st) (a_num st, a_buckets st) (K (a_spec st) d mask q, q)) as [r|]; cbn [bind].
+    + rewrite IH; [|exact Hok|intros; apply Hl; right; assumption].
+      cbn [adv_with a_spec a_num a_buckets]. destruct r as [n b]. reflexivity.
+    + apply for_each_Panic.
+Qed.
+
+Lemma bump_eq sp num m :
+  bump sp num m = (n <- tget num m;; nm <- tset num m (lo16 (n + 1));; Ok (nm, N.land n (block_mask sp))).
+Proof. unfold bump. destruct (tget num m) as [n|]; cbn [bind]; [rewrite lo16_lo32|]; reflexivity. Qed.
+
+Lemma quad_keys_puts st m0 m1 m2 m3 v0 v1 v2 v3 :
+  adv_quad_keys st m0 m1 m2 m3 v0 v1 v2 v3 =
+  (r <- adv_puts (a_spec st) [(m0, v0); (m1, v1); (m2, v2); (m3, v3)] (a_num st, a_buckets st);; Ok (adv_with st r)).
+Proof.
+  unfold adv_quad_keys, adv_puts, adv_put, adv_with. cbn [fold_left fst snd bind].
+  rewrite bump_eq.
+  destruct (tget (a_num st) m0) as [x0|]; cbn [bind fst snd]; [|reflexivity].
+  destruct (tset (a_num st) m0 (lo16 (x0 + 1))) as [n1|]; cbn [bind fst snd];
+    [|destruct (tset (a_buckets st) _ (lo32 v0)); reflexivity].
+  rewrite bump_eq.
+  destruct (tset (a_buckets st) (N.shiftl m0 (block_bits (a_spec st)) + N.land x0 (block_mask (a_spec st))) (lo32 v0)) as [b1|] eqn:Eb1; cbn [bind fst snd].
+  2:{ destruct (tget n1 m1) as [x1|]; cbn [bind fst snd]; [|reflexivity].
+      destruct (tset n1 m1 _) as [n2|]; cbn [bind fst snd]; [|reflexivity].
+      rewrite bump_eq.
+      destruct (tget n2 m2) as [x2|]; cbn [bind fst snd]; [|reflexivity].
+      destruct (tset n2 m2 _) as [n3|]; cbn [bind fst snd]; [|reflexivity].
+      rewrite bump_eq.
+      destruct (tget n3 m3) as [x3|]; cbn [bind fst snd]; [|reflexivity].
+      destruct (tset n3 m3 _) as [n4|]; cbn [bind fst snd]; reflexivity. }
+  destruct (tget n1 m1) as [x1|]; cbn [bind fst snd]; [|reflexivity].
+  destruct (tset n1 m1 (lo16 (x1 + 1))) as [n2|]; cbn [bind fst snd];
+    [|destruct (tset b1 _ (lo32 v1)); reflexivity].
+  rewrite bump_eq.
+  destruct (tset b1 (N.shiftl m1 (block_bits (a_spec st)) + N.land x1 (block_mask (a_spec st))) (lo32 v1)) as [b2|] eqn:Eb2; cbn [bind fst snd].
+  2:{ destruct (tget n2 m2) as [x2|]; cbn [bind fst snd]; [|reflexivity].
+      destruct (tset n2 m2 _) as [n3|]; cbn [bind fst snd]; [|reflexivity].
+      rewrite bump_eq.
+      destruct (tget n3 m3) as [x3|]; cbn [bind fst snd]; [|reflexivity].
+      destruct (tset n3 m3 _) as [n4|]; cbn [bind fst snd]; reflexivity. }
+  destruct (tget n2 m2) as [x2|]; cbn [bind fst snd]; [|reflexivity].
+  destruct (tset n2 m2 (lo16 (x2 + 1))) as [n3|]; cbn [bind fst snd];
+    [|destruct (tset b2 _ (lo32 v2)); reflexivity].
+  rewrite bump_eq.
+  destruct (tset b2 (N.shiftl m2 (block_bits (a_spec st)) + N.land x2 (block_mask (a_spec st))) (lo32 v2)) as [b3|] eqn:Eb3; cbn [bind fst snd].
+  2:{ destruct (tget n3 m3) as [x3|]; cbn [bind fst snd]; [|reflexivity].
+      destruct (tset n3 m3 _) as [n4|]; cbn [bind fst snd]; reflexivity. }
+  destruct (tget n3 m3) as [x3|]; cbn [bind fst snd]; [|reflexivity].
+  destruct (tset n3 m3 (lo16 (x3 + 1))) as [n4|]; cbn [bind fst snd];
+    [|destruct (tset b3 _ (lo32 v3)); reflexivity].
+  destruct (tset b3 _ (lo32 v3)) as [b4|]; cbn [bind fst snd]; reflexivity.
+Qed.
+
+Lemma adv_store_spec d mask st q st' : adv_store d mask st q = Ok st' -> a_spec st' = a_spec st /\ tlen (a_num st') = tlen (a_num st) /\ tlen (a_buckets st') = tlen (a_buckets st) /\ a_common st' = a_common st.
+Proof.
+  unfold adv_store. destruct (adv_hash_bytes _ _ _) as [key|]; cbn [bind]; [|discriminate].
+  destruct (tget _ _) as [n|]; cbn [bind]; [|discriminate].
+  unfold tset. destruct (_ <? tlen (a_buckets st)); cbn [bind]; [|discriminate].
+  destruct (_ <? tlen (a_num st)); cbn [bind]; [|discriminate].
+  intros H. injection H as <-. cbn. repeat split; reflexivity.
+Qed.
+
+(* four windows of the 7-byte word at address a are the four one-position updates q .. q+3 *)
+Lemma adv_quad_at d mask T lim st a q : adv32_ok (a_spec st) -> view_ok d mask T lim -> 3 <= T -> q + 6 < lim ->
+  le32 d a = le32 d (N.land q mask) -> le32 d (a + 1) = le32 d (N.land (q + 1) mask) ->
+  le32 d (a + 2) = le32 d (N.land (q + 2) mask) -> le32 d (a + 3) = le32 d (N.land (q + 3) mask) ->
+  adv_quad_word st (le56 d a) q (q + 1) (q + 2) (q + 3) = for_each (adv_store d mask) (range q (q + 4)) (Ok st).
+Proof.
+  intros Hok Hv HT Hq E0 E1 E2 E3. destruct Hok as [Hk Hrest].
+  unfold adv_quad_word. destruct (le56_window d a) as [W0 [W1 [W2 W3]]].
+  rewrite W0, W1, W2, W3.
+  rewrite !mix_window_ok by (try exact Hk; apply le32_lt). cbn [bind].
+  rewrite quad_keys_puts. rewrite range_4.
+  rewrite (adv_stores_puts d mask T lim _ Hv HT st (conj Hk Hrest)).
+  - unfold K. cbn [map]. rewrite E0, E1, E2, E3. reflexivity.
+  - intros x [<-|[<-|[<-|[<-|[]]]]]; lia.
+Qed.
+
+Lemma adv_batch_quad_eq d mask T lim st q : adv32_ok (a_spec st) -> view_ok d mask T lim -> 6 <= T -> q + 6 < lim ->
+  adv_batch_quad Repaired d mask st q = for_each (adv_store d mask) (range q (q + 4)) (Ok st).
+Proof.
+  intros Hok Hv HT Hq. unfold adv_batch_quad.
+  destruct (le32_view d mask T lim q 3 Hv) as [B3 E3]; [lia|lia|].
+  destruct (le32_view d mask T lim q 2 Hv) as [_ E2]; [lia|lia|].
+  destruct (le32_view d mask T lim q 1 Hv) as [_ E1]; [lia|lia|].
+  destruct (N.leb_spec (N.land q mask + 7) (blen d)) as [_|Hbad]; [|lia].
+  apply (adv_quad_at d mask T lim); try assumption; try lia; try reflexivity.
+Qed.
+
+Theorem adv_range_eq d mask st s e : adv32_ok (a_spec st) -> adv_lens_ok st = true ->
+  (s < e -> view_ok d mask 6 (e + 3)) ->
+  adv_store_range Repaired d mask st s e = one_at_a_time (adv_store d mask) s e st.
+Proof.
+  intros Hok Hlens Hv. unfold one_at_a_time, adv_store_range, adv_store_range_opt.
+  destruct (adv32_consts _ (proj1 Hok)) as [_ [_ El]]. rewrite El, Hlens.
+  change OPT_BATCH_CHUNK with 4. change (4 =? 4) with true. rewrite andb_true_r.
+  destruct (N.leb_spec (s + 4 * 2) e) as [Hle|Hgt]; [|reflexivity].
+  assert (Hv' : view_ok d mask 6 (e + 3)) by (apply Hv; lia). clear Hv.
+  pose proof (N.mul_div_le (e - s) 4 ltac:(discriminate)) as Hn.
+  remember ((e - s) / 4) as n eqn:En. clear En.
+  apply prefix_then_rest; [lia|lia|].
+  apply (chunks_eq_inv (fun st' => a_spec st' = a_spec st)).
+  - intros st1 q st2 H1 H2. destruct (adv_store_spec _ _ _ _ _ H2) as [E _]. congruence.
+  - reflexivity.
+  - intros st' k HP Hk. apply (adv_batch_quad_eq d mask 6 (e + 3)); [rewrite HP; exact Hok|exact Hv'|lia|nia].
+Qed.
+
+Lemma view_unmasked d T lim : view_ok d USIZE_MAX T lim -> lim < 2 ^ 63 /\ lim <= blen d.
+Proof.
+  intros [H1 [[_ H2]|[k [Hk [_ [Hlen _]]]]]]; [split; assumption|]. split; [exact H1|].
+  assert (E : 2 ^ k = 2 ^ 64).
+  { assert (2 ^ k <> 0) by (apply N.pow_nonzero; discriminate). change USIZE_MAX with (2 ^ 64 - 1) in Hk.
+    assert (0 < 2 ^ 64) by reflexivity. lia. }
+  rewrite E in Hlen. assert (2 ^ 63 < 2 ^ 64) by reflexivity. lia.
+Qed.
+
+Lemma adv_memfetch_block_eq d T lim st q : adv32_ok (a_spec st) -> view_ok d USIZE_MAX T lim -> 3 <= T -> q + 34 < lim ->
+  adv_memfetch_block d st q = for_each (adv_store d USIZE_MAX) (range q (q + 32)) (Ok st).
+Proof.
+  intros Hok Hv HT Hq. destruct (view_unmasked d T lim Hv) as [Hl Hb].
+  assert (H63 : 2 ^ 63 < 2 ^ 64) by reflexivity.
+  unfold adv_memfetch_block. change MEMFETCH_REG_SIZE with 32. change (32 + 4 - 1) with 35. change (32 / 4) with 8.
+  destruct (N.leb_spec (q + 35) (blen d)) as [_|Hbad]; [|lia].
+  change (fun (s : adv_state) (q0 : N) => let i := q0 * 4 in
+            adv_quad_word s (le56 d (q + i)) (q + i) (q + i + 1) (q + i + 2) (q + i + 3))
+    with (fun (s : adv_state) (k : N) => (fun s' x => adv_quad_word s' (le56 d x) x (x + 1) (x + 2) (x + 3)) s (q + k * 4)).
+  change (q + 32) with (q + 8 * 4).
+  apply (chunks_eq_inv (fun st' => a_spec st' = a_spec st) (adv_store d USIZE_MAX)
+           (fun s' x => adv_quad_word s' (le56 d x) x (x + 1) (x + 2) (x + 3)) q 4 8 st).
+  - intros st1 x st2 H1 H2. destruct (adv_store_spec _ _ _ _ _ H2) as [E _]. congruence.
+  - reflexivity.
+  - intros st' k HP Hk.
+    apply (adv_quad_at d USIZE_MAX T lim); [rewrite HP; exact Hok|exact Hv|exact HT|lia| | | |];
+      rewrite land_usize_max by lia; reflexivity.
+Qed.
+
+Theorem adv_bulk_eq d mask st s e : adv32_ok (a_spec st) -> adv_lens_ok st = true ->
+  (s < e -> view_ok d mask 6 (e + 3)) ->
+  adv_bulk_store_range d mask st s e = one_at_a_time (adv_store d mask) s e st.
+Proof.
+  intros Hok Hlens Hv. unfold one_at_a_time, adv_bulk_store_range, adv_bulk_opt_memfetch.
+  destruct (adv32_consts _ (proj1 Hok)) as [_ [_ El]]. rewrite El, Hlens.
+  change MEMFETCH_REG_SIZE with 32. change (4 =? 4) with true. rewrite andb_true_r.
+  destruct (N.eqb_spec mask USIZE_MAX) as [->|Hne]; [|reflexivity].
+  destruct (N.ltb_spec (s + 32) e) as [Hlt|Hge]; [|reflexivity]. cbn [andb].
+  assert (Hv' : view_ok d USIZE_MAX 6 (e + 3)) by (apply Hv; lia). clear Hv.
+  pose proof (N.mul_div_le (e - s) 32 ltac:(discriminate)) as Hn.
+  remember ((e - s) / 32) as n eqn:En. clear En.
+  apply prefix_then_rest; [lia|lia|].
+  apply (chunks_eq_inv (fun st' => a_spec st' = a_spec st)).
+  - intros st1 q st2 H1 H2. destruct (adv_store_spec _ _ _ _ _ H2) as [E _]. congruence.
+  - reflexivity.
+  - intros st' k HP Hk. apply (adv_memfetch_block_eq d 6 (e + 3)); [rewrite HP; exact Hok|exact Hv'|lia|nia].
+Qed.
+
+(* H6 (8-byte hash): neither fast path is taken, whatever the variant *)
+Theorem adv_h6_range_eq v d mask st s e : ak (a_spec st) = AK_H6 ->
+  adv_store_range v d mask st s e = one_at_a_time (adv_store d mask) s e st.
+Proof.
+  intros Hk. unfold one_at_a_time, adv_store_range, adv_store_range_opt, store_lookahead. rewrite Hk.
+  change (H6_StoreLookahead =? 4) with false. rewrite andb_false_r. reflexivity.
+Qed.
+Theorem adv_h6_bulk_eq d mask st s e : ak (a_spec st) = AK_H6 ->
+  adv_bulk_store_range d mask st s e = one_at_a_time (adv_store d mask) s e st.
+Proof.
+  intros Hk. unfold one_at_a_time, adv_bulk_store_range, adv_bulk_opt_memfetch, store_lookahead. rewrite Hk.
+  change (H6_StoreLookahead =? 4) with false. rewrite andb_false_r. reflexivity.
+Qed.
+
+(* H9 and H10: the bulk entry point is the one-at-a-time loop *)
+Theorem h9_range_eq d mask st s e : h9_store_range d mask st s e = one_at_a_time (h9_store d mask) s e st.
+Proof. reflexivity. Qed.
+Theorem h9_bulk_eq d mask st s e : h9_bulk_store_range d mask st s e = one_at_a_time (h9_store d mask) s e st.
+Proof. reflexivity. Qed.
+Theorem h10_bulk_eq d mask st s e : h10_bulk_store_range d mask st s e = one_at_a_time (h10_store d mask) s e st.
+Proof. reflexivity. Qed.
+(* H10::StoreRange stores every position only for ranges shorter than 63 *)
+Theorem h10_range_short_eq d mask st s e : e < s + H10_RANGE_TAIL ->
+  h10_store_range d mask st s e = one_at_a_time (h10_store d mask) s e st.
+Proof.
+  intros H. unfold h10_store_range, one_at_a_time. change H10_RANGE_TAIL with 63 in *. change H10_RANGE_THIN_MIN with 512.
+  destruct (N.leb_spec (s + 63) e) as [Hbad|_]; [lia|].
+  destruct (N.leb_spec (s + 512) s) as [Hbad|_]; [lia|]. reflexivity.
+Qed.
+
+(* partitions for the other kinds *)
+Theorem adv_split_eq d mask st s cuts : adv32_ok (a_spec st) -> adv_lens_ok st = true -> ascending s cuts ->
+  (s < last_cut s cuts -> view_ok d mask 6 (last_cut s cuts + 3)) ->
+  pieces (fun st a b => adv_bulk_store_range d mask st a b) cuts s (Ok st)
+  = adv_bulk_store_range d mask st s (last_cut s cuts).
+Proof.
+  intros Hok Hlens Hasc Hv. rewrite (adv_bulk_eq d mask st s _ Hok Hlens Hv). unfold one_at_a_time.
+  (* the pieces run on states reached by one-position updates: same spec, same table lengths *)
+  set (P := fun st' : adv_state => a_spec st' = a_spec st /\ tlen (a_num st') = tlen (a_num st) /\ tlen (a_buckets st') = tlen (a_buckets st)).
+  assert (Hpres : forall st1 q st2, P st1 -> adv_store d mask st1 q = Ok st2 -> P st2).
+  { intros st1 q st2 [E1 [E2 E3]] H. destruct (adv_store_spec _ _ _ _ _ H) as [F1 [F2 [F3 _]]]. unfold P. repeat split; congruence. }
+  assert (Hgen : forall cs from r, (match r with Ok st' => P st' | Panic => True end) -> s <= from -> ascending from cs -> last_cut from cs <= last_cut s cuts ->
+            pieces (fun st a b => adv_bulk_store_range d mask st a b) cs from r = for_each (adv_store d mask) (range from (last_cut from cs)) r).
+  { induction cs as [|c cs IH]; intros from r HP Hlo Ha Hhi.
+    - cbn [pieces]. unfold last_cut. cbn [last]. rewrite range_empty by lia. reflexivity.
+    - destruct Ha as [H1 H2]. rewrite last_cut_cons in *. cbn [pieces].
+      pose proof (ascending_last c cs H2) as Hl.
+      assert (Hstep : bind r (fun st0 => adv_bulk_store_range d mask st0 from c) = for_each (adv_store d mask) (range from c) r).
+      { destruct r as [st'|]; cbn [bind]; [|rewrite for_each_Panic; reflexivity].
+        destruct HP as [E1 [E2 E3]].
+        apply adv_bulk_eq; [rewrite E1; exact Hok| |].
+        - unfold adv_lens_ok in *. rewrite E1, E2, E3. exact Hlens.
+        - intros Hlt. apply (view_mono d mask 6 (last_cut s cuts + 3)); [apply Hv; lia|lia]. }
+      rewrite Hstep. rewrite IH; [| |lia|exact H2|exact Hhi].
+      + rewrite (range_split from c (last_cut c cs)) by lia. rewrite for_each_app. reflexivity.
+      + destruct r as [st'|]; [|rewrite for_each_Panic; exact I].
+        destruct (for_each (adv_store d mask) (range from c) (Ok st')) as [st2|] eqn:E; [|exact I].
+        eapply (for_each_inv P); eassumption. }
+  apply Hgen; [unfold P; repeat split; reflexivity|lia|exact Hasc|lia].
+Qed.
+
+Theorem loop_split_eq {S} (store : S -> N -> res S) st s cuts : ascending s cuts ->
+  pieces (fun st a b => one_at_a_time store a b st) cuts s (Ok st) = one_at_a_time store s (last_cut s cuts) st.
+Proof.
+  intros Hasc. unfold one_at_a_time.
+  apply (pieces_eq _ store s (last_cut s cuts)); [reflexivity|lia|exact Hasc|lia].
+Qed.
+
+(* Store4Vec4 of the 4-byte kinds = Store at ix, ix+4, ix+8, ix+12 *)
+Theorem adv_vec4_eq d mask st q : adv32_ok (a_spec st) -> view_ok d mask 7 (q + 16) ->
+  adv_store4vec4 d mask st q = for_each (adv_store d mask) [q; q + 4; q + 8; q + 12] (Ok st).
+Proof.
+  intros Hok Hv. destruct (adv32_consts _ (proj1 Hok)) as [_ [_ El]].
+  unfold adv_store4vec4. rewrite El. change (negb (4 =? 4)) with false. cbv iota.
+  destruct (le32_view d mask 7 (q + 16) q 4 Hv) as [B1 E1]; [lia|lia|].
+  destruct (le32_view d mask 7 (q + 16) (q + 8) 4 Hv) as [B2 E2]; [lia|lia|].
+  cbn zeta.
+  destruct (N.leb_spec (N.land q mask + 8) (blen d)) as [_|Hbad]; [|lia].
+  destruct (N.leb_spec (N.land (q + 8) mask + 8) (blen d)) as [_|Hbad]; [|lia]. cbn [andb].
+  rewrite !mix_window_ok by (try exact (proj1 Hok); apply le32_lt). cbn [bind].
+  rewrite quad_keys_puts.
+  rewrite (adv_stores_puts d mask 7 (q + 16) _ Hv ltac:(lia) st Hok).
+  - unfold K. cbn [map]. rewrite E1, E2. replace (q + 8 + 4) with (q + 12) by lia. reflexivity.
+  - intros x [<-|[<-|[<-|[<-|[]]]]]; lia.
+Qed.
+Theorem adv_h6_vec4_eq d mask st q : ak (a_spec st) = AK_H6 ->
+  adv_store4vec4 d mask st q = for_each (adv_store d mask) [q; q + 4; q + 8; q + 12] (Ok st) /\
+  adv_store_even_vec4 d mask st q = for_each (adv_store d mask) [q; q + 2; q + 4; q + 6] (Ok st).
+Proof.
+  intros Hk. unfold adv_store4vec4, adv_store_even_vec4, store_lookahead. rewrite Hk.
+  change (negb (H6_StoreLookahead =? 4)) with true. split; reflexivity.
+Qed.
+
+(* ------------------------------------------------------------------------------------------ *)
+(* clones and equality *)
+Lemma common_eqb_refl c : common_eqb c c = true.
+Proof. induction c as [|x c IH]; [reflexivity|]. cbn [common_eqb]. rewrite N.eqb_refl, IH. reflexivity. Qed.
+Lemma trie_eqb_refl d t : trie_eqb d t t = true.
+Proof.
+  induction t as [|l IHl v r IHr]; [reflexivity|]. cbn [trie_eqb]. rewrite IHl, IHr, N.eqb_refl. reflexivity.
+Qed.
+Lemma table_eqb_refl t : table_eqb t t = true.
+Proof. unfold table_eqb. rewrite !N.eqb_refl, trie_eqb_refl. reflexivity. Qed.
+Lemma clone_table_id t : clone_table t = Ok t.
+Proof. unfold clone_table, clone_from_slice, tnew. cbn [tlen]. rewrite N.eqb_refl. destruct t; reflexivity. Qed.
+
+Theorem basic_clone_eq st : basic_clone st = Ok st /\ basic_eqb st st = true.
+Proof.
+  split.
+  - unfold basic_clone. rewrite clone_table_id. cbn [bind]. destruct st; reflexivity.
+  - unfold basic_eqb. rewrite common_eqb_refl, table_eqb_refl. reflexivity.
+Qed.
+Lemma adv_spec_eqb_refl sp : adv_spec_eqb sp sp = true.
+Proof. unfold adv_spec_eqb. rewrite !N.eqb_refl. destruct (ak sp); reflexivity. Qed.
+Theorem adv_clone_eq st : adv_clone st = Ok st /\ adv_eqb st st = true.
+Proof.
+  split.
+  - unfold adv_clone. rewrite !clone_table_id. cbn [bind]. destruct st; reflexivity.
+  - unfold adv_eqb. rewrite common_eqb_refl, adv_spec_eqb_refl, !table_eqb_refl. reflexivity.
+Qed.
+Theorem h9_clone_eq st : h9_clone st = Ok st /\ h9_eqb st st = true.
+Proof.
+  split.
+  - unfold h9_clone. rewrite !clone_table_id. cbn [bind]. destruct st; reflexivity.
+  - unfold h9_eqb. rewrite common_eqb_refl, !table_eqb_refl. reflexivity.
+Qed.
+Theorem h10_clone_eq st : tlen (t_buckets st) = N.shiftl 1 H10_BUCKET_BITS ->
+  h10_clone st = Ok st /\ h10_eqb st st = true.
+Proof.
+  intros Hl. split.
+  - unfold h10_clone. rewrite clone_table_id. unfold clone_from_slice, tnew. cbn [tlen]. rewrite <- Hl, N.eqb_refl.
+    cbn [bind]. destruct st as [w c b i f]. cbn. destruct b. reflexivity.
+  - unfold h10_eqb. rewrite common_eqb_refl, !table_eqb_refl, !N.eqb_refl. reflexivity.
+Qed.
+
+(* ------------------------------------------------------------------------------------------ *)
+(* the two fast paths as they were found: refutation witnesses (replayed on the pre-fix code by
+   checks/c19.py, corpus lines `asfound-*`) *)
+Definition wbytes (n : N) : list N := map (fun i => (i * i * 7 + i * 13 + 5) mod 251) (range 0 n).
+(* unmasked: 32 bytes *)
+Definition wdata_plain : buf := buf_of_list (wbytes 32).
+(* a ring of 16 bytes followed by a tail repeating its first 10 *)
+Definition wdata_ring : buf := buf_of_list (wbytes 16 ++ firstn 10 (wbytes 16)).
+Definition basic_init (len : N) : basic_state := {| b_common := []; b_buckets := tnew len 0 |}.
+Definition hq5_init : adv_state :=
+  {| a_common := []; a_spec := {| ak := AK_HQ5; f_hash_mask := 0; f_hash_shift := 0; f_bucket_size := 0; f_block_mask := 0; f_block_bits := 0 |};
+     a_num := tnew HQ5_bucket_size 0; a_buckets := tnew (HQ5_bucket_size * HQ5_block_size) 0 |}.
+
+Definition res_basic_eqb (a b : res basic_state) : bool :=
+  match a, b with Ok x, Ok y => basic_eqb x y | Panic, Panic => true | _, _ => false end.
+Definition res_adv_eqb (a b : res adv_state) : bool :=
+  match a, b with Ok x, Ok y => adv_eqb x y | Panic, Panic => true | _, _ => false end.
+Lemma res_basic_eqb_refl a : res_basic_eqb a a = true.
+Proof. destruct a; [apply (proj2 (basic_clone_eq a))|reflexivity]. Qed.
+Lemma res_adv_eqb_refl a : res_adv_eqb a a = true.
+Proof. destruct a; [apply (proj2 (adv_clone_eq a))|reflexivity]. Qed.
+
+Lemma wdata_plain_view : view_ok wdata_plain USIZE_MAX 10 (17 + 7).
+Proof. split; [reflexivity|left; split; [reflexivity|vm_compute; discriminate]]. Qed.
+Lemma wdata_ring_ok T : T <= 10 -> ring_ok wdata_ring 4 T.
+Proof.
+  intros HT. split; [change (2 ^ 4) with 16; lia|]. split; [change (2 ^ 4) with 16; change (blen wdata_ring) with 26; lia|].
+  intros j Hj. assert (Hj' : j < 10) by lia.
+  assert (H : all_below (fun j => byte wdata_ring (2 ^ 4 + j) =? byte wdata_ring j) 10 = true) by (vm_compute; reflexivity).
+  apply N.eqb_eq. exact (all_below_spec _ _ H j Hj').
+Qed.
+Lemma wdata_ring_view T lim : T <= 10 -> lim < 2 ^ 63 -> view_ok wdata_ring 15 T lim.
+Proof. intros HT Hl. split; [exact Hl|right]. exists 4. split; [reflexivity|apply wdata_ring_ok; exact HT]. Qed.
+
+(* quality 3 (H3, sweep 2), no mask, start 1: the group of four starting at 5 crosses position 8 *)
+Theorem basic_asfound_refuted_unmasked :
+  exists d mask st s e, s < e /\ view_ok d mask 10 (e + 7) /\
+    basic_store_range AsFound H3p d mask st s e <> one_at_a_time (basic_store H3p d mask) s e st.
+Proof.
+  exists wdata_plain, USIZE_MAX, (basic_init 65546), 1, 17. split; [reflexivity|]. split; [exact wdata_plain_view|].
+  intros H.
+  assert (Hd : res_basic_eqb (basic_store_range AsFound H3p wdata_plain USIZE_MAX (basic_init 65546) 1 17)
+                             (one_at_a_time (basic_store H3p wdata_plain USIZE_MAX) 1 17 (basic_init 65546)) = false)
+    by (vm_compute; reflexivity).
+  rewrite H, res_basic_eqb_refl in Hd. discriminate.
+Qed.
+
+(* quality 2 (H2, sweep 1) behind the ring-buffer mask 15, positions 16..31: masked positions are stored *)
+Theorem basic_asfound_refuted_masked :
+  exists d mask st s e, s < e /\ view_ok d mask 10 (e + 7) /\
+    basic_store_range AsFound H2p d mask st s e <> one_at_a_time (basic_store H2p d mask) s e st.
+Proof.
+  exists wdata_ring, 15, (basic_init 65545), 16, 32. split; [reflexivity|]. split; [apply wdata_ring_view; [lia|reflexivity]|].
+  intros H.
+  assert (Hd : res_basic_eqb (basic_store_range AsFound H2p wdata_ring 15 (basic_init 65545) 16 32)
+                             (one_at_a_time (basic_store H2p wdata_ring 15) 16 32 (basic_init 65545)) = false)
+    by (vm_compute; reflexivity).
+  rewrite H, res_basic_eqb_refl in Hd. discriminate.
+Qed.
+
+(* quality 5 (H5q5) behind the mask: StoreRange stored masked positions *)
+Theorem adv_asfound_refuted_masked :
+  exists d mask st s e, s < e /\ adv32_ok (a_spec st) /\ adv_lens_ok st = true /\ view_ok d mask 6 (e + 3) /\
+    adv_store_range AsFound d mask st s e <> one_at_a_time (adv_store d mask) s e st.
+Proof.
+  exists wdata_ring, 15, hq5_init, 16, 24. split; [reflexivity|].
+  split; [split; [discriminate|split; vm_compute; discriminate]|]. split; [reflexivity|].
+  split; [apply wdata_ring_view; [lia|reflexivity]|].
+  intros H.
+  assert (Hd : res_adv_eqb (adv_store_range AsFound wdata_ring 15 hq5_init 16 24)
+                           (one_at_a_time (adv_store wdata_ring 15) 16 24 hq5_init) = false)
+    by (vm_compute; reflexivity).
+  rewrite H, res_adv_eqb_refl in Hd. discriminate.
+Qed.
+
+(* the same three inputs on the repaired paths: hypotheses of the positive theorems are met by
+   non-trivial states (every position lands in a distinct, non-empty slot) *)
+Example witnesses_repaired :
+  res_basic_eqb (basic_store_range Repaired H3p wdata_plain USIZE_MAX (basic_init 65546) 1 17)
+                (one_at_a_time (basic_store H3p wdata_plain USIZE_MAX) 1 17 (basic_init 65546)) = true /\
+  res_basic_eqb (basic_store_range Repaired H2p wdata_ring 15 (basic_init 65545) 16 32)
+                (one_at_a_time (basic_store H2p wdata_ring 15) 16 32 (basic_init 65545)) = true /\
+  res_adv_eqb (adv_store_range Repaired wdata_ring 15 hq5_init 16 24)
+              (one_at_a_time (adv_store wdata_ring 15) 16 24 hq5_init) = true /\
+  (match basic_store_range Repaired H3p wdata_plain USIZE_MAX (basic_init 65546) 1 17 with
+   | Ok st => N.of_nat (length (tentries (b_buckets st))) | Panic => 0 end) = 16 /\
+  (match adv_store_range Repaired wdata_ring 15 hq5_init 16 24 with
+   | Ok st => N.of_nat (length (tentries (a_buckets st))) | Panic => 0 end) = 8.
+Proof. vm_compute. repeat split; reflexivity. Qed.
+
+(* ------------------------------------------------------------------------------------------ *)
+(* StoreEvenVec4 of the 4-byte kinds = Store at ix, ix+2, ix+4, ix+6 *)
+Ltac Zify.zify_post_hook ::= Z.to_euclidean_division_equations.
+Lemma window_arith64 b0 b1 b2 b3 b4 b5 b6 b7 :
+  b0 < 256 -> b1 < 256 -> b2 < 256 -> b3 < 256 -> b4 < 256 -> b5 < 256 -> b6 < 256 -> b7 < 256 ->
+  let W := b0 + b1 * 256 + b2 * 65536 + b3 * 16777216 + b4 * 4294967296 + b5 * 1099511627776 + b6 * 281474976710656
+           + b7 * 72057594037927936 in
+  W mod 4294967296 = b0 + b1 * 256 + b2 * 65536 + b3 * 16777216 /\
+  (W / 65536) mod 4294967296 = b2 + b3 * 256 + b4 * 65536 + b5 * 16777216 /\
+  (W / 4294967296) mod 4294967296 = b4 + b5 * 256 + b6 * 65536 + b7 * 16777216 /\
+  (W / 281474976710656) mod 65536 = b6 + b7 * 256.
+Proof. intros. subst W. repeat split; lia. Qed.
+Ltac Zify.zify_post_hook ::= idtac.
+
+Lemma le64_sum d a :
+  le64 d a = byte d a + byte d (a + 1) * 2 ^ 8 + byte d (a + 2) * 2 ^ 16 + byte d (a + 3) * 2 ^ 24
+             + byte d (a + 4) * 2 ^ 32 + byte d (a + 5) * 2 ^ 40 + byte d (a + 6) * 2 ^ 48 + byte d (a + 7) * 2 ^ 56.
+Proof.
+  unfold le64. rewrite lor_sum; [rewrite le56_sum; reflexivity|].
+  rewrite le56_sum.
+  pose proof (byte_lt d a). pose proof (byte_lt d (a + 1)). pose proof (byte_lt d (a + 2)).
+  pose proof (byte_lt d (a + 3)). pose proof (byte_lt d (a + 4)). pose proof (byte_lt d (a + 5)). pose proof (byte_lt d (a + 6)).
+  change (2 ^ 8) with 256. change (2 ^ 16) with 65536. change (2 ^ 24) with 16777216.
+  change (2 ^ 32) with 4294967296. change (2 ^ 40) with 1099511627776. change (2 ^ 48) with 281474976710656.
+  change (2 ^ 56) with 72057594037927936. lia.
+Qed.
+
+Lemma le64_window d a :
+  N.land (le64 d a) M32 = le32 d a /\
+  N.land (N.shiftr (le64 d a) 16) M32 = le32 d (a + 2) /\
+  N.land (N.shiftr (le64 d a) 32) M32 = le32 d (a + 4) /\
+  N.land (N.shiftr (le64 d a) 48) 65535 = byte d (a + 6) + byte d (a + 7) * 256.
+Proof.
+  rewrite le64_sum, !le32_sum.
+  replace (a + 2 + 1) with (a + 3) by lia. replace (a + 2 + 2) with (a + 4) by lia. replace (a + 2 + 3) with (a + 5) by lia.
+  replace (a + 4 + 1) with (a + 5) by lia. replace (a + 4 + 2) with (a + 6) by lia. replace (a + 4 + 3) with (a + 7) by lia.
+  change M32 with (2 ^ 32 - 1). change 65535 with (2 ^ 16 - 1). rewrite !land_ones_mod, !N.shiftr_div_pow2.
+  change (2 ^ 8) with 256. change (2 ^ 16) with 65536. change (2 ^ 24) with 16777216.
+  change (2 ^ 32) with 4294967296. change (2 ^ 40) with 1099511627776. change (2 ^ 48) with 281474976710656.
+  change (2 ^ 56) with 72057594037927936.
+  apply window_arith64; apply byte_lt.
+Qed.
+
+Theorem adv_even_vec4_eq d mask st q : adv32_ok (a_spec st) -> view_ok d mask 7 (q + 10) ->
+  adv_store_even_vec4 d mask st q = for_each (adv_store d mask) [q; q + 2; q + 4; q + 6] (Ok st).
+Proof.
+  intros Hok Hv. destruct (adv32_consts _ (proj1 Hok)) as [_ [_ El]].
+  unfold adv_store_even_vec4. rewrite El. change (negb (4 =? 4)) with false. cbv iota. cbn zeta.
+  destruct (view_byte d mask 7 (q + 10) q 7 Hv) as [B1 _]; [lia|lia|].
+  destruct (view_byte d mask 7 (q + 10) (q + 8) 1 Hv) as [B2 F9]; [lia|lia|].
+  destruct (N.leb_spec (N.land q mask + 8) (blen d)) as [_|Hbad]; [|lia].
+  destruct (N.leb_spec (N.land (q + 8) mask + 2) (blen d)) as [_|Hbad]; [|lia]. cbn [andb].
+  destruct (le64_window d (N.land q mask)) as [W0 [W1 [W2 W3]]]. rewrite W0, W1, W2, W3.
+  destruct (le32_view d mask 7 (q + 10) q 2 Hv) as [_ E2]; [lia|lia|].
+  destruct (le32_view d mask 7 (q + 10) q 4 Hv) as [_ E4]; [lia|lia|].
+  (* the fourth window: bytes li+6, li+7, hi, hi+1 are the four bytes of position q+6 *)
+  assert (E6 : N.lor (N.shiftl (N.land (le16 d (N.land (q + 8) mask)) 65535) 16)
+                     (byte d (N.land q mask + 6) + byte d (N.land q mask + 7) * 256)
+               = le32 d (N.land (q + 6) mask)).
+  { pose proof (byte_lt d (N.land q mask + 6)). pose proof (byte_lt d (N.land q mask + 7)).
+    pose proof (byte_lt d (N.land (q + 8) mask)). pose proof (byte_lt d (N.land (q + 8) mask + 1)).
+    unfold le16. rewrite (lor_sum _ _ 8) by (change (2 ^ 8) with 256; lia).
+    change 65535 with (2 ^ 16 - 1). rewrite land_ones_mod.
+    rewrite N.mod_small by (change (2 ^ 8) with 256; change (2 ^ 16) with 65536; lia).
+    rewrite lor_shiftl_small by (change (2 ^ 16) with 65536; lia).
+    rewrite le32_sum.
+    rewrite (proj2 (view_byte d mask 7 (q + 10) q 6 Hv ltac:(lia) ltac:(lia))).
+    destruct (view_byte d mask 7 (q + 10) q 7 Hv) as [_ G7]; [lia|lia|]. rewrite G7.
+    destruct (view_byte d mask 7 (q + 10) (q + 6) 1 Hv) as [_ G1]; [lia|lia|]. rewrite G1.
+    destruct (view_byte d mask 7 (q + 10) (q + 6) 2 Hv) as [_ G2]; [lia|lia|]. rewrite G2.
+    destruct (view_byte d mask 7 (q + 10) (q + 6) 3 Hv) as [_ G3]; [lia|lia|]. rewrite G3.
+    rewrite F9.
+    replace (q + 6 + 1) with (q + 7) by lia. replace (q + 6 + 2) with (q + 8) by lia.
+    replace (q + 6 + 3) with (q + 9) by lia. replace (q + 8 + 1) with (q + 9) by lia.
+    change (2 ^ 8) with 256. change (2 ^ 16) with 65536. change (2 ^ 24) with 16777216. lia. }
+  rewrite E6.
+  rewrite !mix_window_ok by (try exact (proj1 Hok); apply le32_lt). cbn [bind].
+  rewrite quad_keys_puts.
+  rewrite (adv_stores_puts d mask 7 (q + 10) _ Hv ltac:(lia) st Hok).
+  - unfold K. cbn [map]. rewrite E2, E4. reflexivity.
+  - intros x [<-|[<-|[<-|[<-|[]]]]]; lia.
+Qed.
+
+(* ------------------------------------------------------------------------------------------ *)
+(* per-kind side conditions *)
+Lemma bp_ok_H2 : bp_ok H2p. Proof. unfold bp_ok, H2p; cbn. change (2 ^ 31) with 2147483648. unfold H2_HASH_SHR, H2_BUCKET_SWEEP. lia. Qed.
+Lemma bp_ok_H3 : bp_ok H3p. Proof. unfold bp_ok, H3p; cbn. change (2 ^ 31) with 2147483648. unfold H3_HASH_SHR, H3_BUCKET_SWEEP. lia. Qed.
+Lemma bp_ok_H4 : bp_ok H4p. Proof. unfold bp_ok, H4p; cbn. change (2 ^ 31) with 2147483648. unfold H4_HASH_SHR, H4_BUCKET_SWEEP. lia. Qed.
+Lemma bp_ok_H54 : bp_ok H54p. Proof. unfold bp_ok, H54p; cbn. change (2 ^ 31) with 2147483648. unfold H54_HASH_SHR, H54_BUCKET_SWEEP. lia. Qed.
+
+Lemma adv32_ok_hq5 sp : ak sp = AK_HQ5 -> adv32_ok sp.
+Proof. intros H. unfold adv32_ok, block_bits, hash_shift. rewrite H. split; [discriminate|]. unfold HQ5_block_bits, HQ5_hash_shift. lia. Qed.
+Lemma adv32_ok_hq7 sp : ak sp = AK_HQ7 -> adv32_ok sp.
+Proof. intros H. unfold adv32_ok, block_bits, hash_shift. rewrite H. split; [discriminate|]. unfold HQ7_block_bits, HQ7_hash_shift. lia. Qed.
+Lemma adv32_ok_h5 sp : ak sp = AK_H5 -> f_block_bits sp <= f_hash_shift sp -> f_hash_shift sp <= 32 -> adv32_ok sp.
+Proof. intros H H1 H2. unfold adv32_ok, block_bits, hash_shift. rewrite H. split; [discriminate|]. lia. Qed.
+
+Lemma pieces_eq_inv {S} (P : S -> Prop) (call : S -> N -> N -> res S) (store : S -> N -> res S) (lo hi : N) cuts :
+  (forall st q st', P st -> store st q = Ok st' -> P st') ->
+  (forall st a b, P st -> lo <= a -> a <= b -> b <= hi -> call st a b = for_each store (range a b) (Ok st)) ->
+  forall from r, (match r with Ok st => P st | Panic => True end) -> lo <= from -> ascending from cuts -> last_cut from cuts <= hi ->
+  pieces call cuts from r = for_each store (range from (last_cut from cuts)) r.
+Proof.
+  intros Hpres Hcall. induction cuts as [|c cs IH]; intros from r HP Hlo Hasc Hhi.
+  - cbn [pieces]. unfold last_cut. cbn [last]. rewrite range_empty by lia. reflexivity.
+  - destruct Hasc as [H1 H2]. rewrite last_cut_cons in *. cbn [pieces].
+    pose proof (ascending_last c cs H2) as Hl.
+    assert (Hstep : bind r (fun st0 => call st0 from c) = for_each store (range from c) r).
+    { destruct r as [st'|]; cbn [bind]; [apply Hcall; try assumption; lia|rewrite for_each_Panic; reflexivity]. }
+    rewrite Hstep. rewrite IH; [| |lia|exact H2|exact Hhi].
+    + rewrite (range_split from c (last_cut c cs)) by lia. rewrite for_each_app. reflexivity.
+    + destruct r as [st'|]; [|rewrite for_each_Panic; exact I].
+      destruct (for_each store (range from c) (Ok st')) as [st2|] eqn:E; [|exact I].
+      eapply (for_each_inv P); eassumption.
+Qed.
+
+Theorem adv_h6_split_eq d mask st s cuts : ak (a_spec st) = AK_H6 -> ascending s cuts ->
+  pieces (fun st a b => adv_bulk_store_range d mask st a b) cuts s (Ok st)
+  = adv_bulk_store_range d mask st s (last_cut s cuts).
+Proof.
+  intros Hk Hasc. rewrite (adv_h6_bulk_eq d mask st s _ Hk). unfold one_at_a_time.
+  apply (pieces_eq_inv (fun st' => ak (a_spec st') = AK_H6) _ _ s (last_cut s cuts)); [| |exact Hk|lia|exact Hasc|lia].
+  - intros st1 q st2 H1 H2. destruct (adv_store_spec _ _ _ _ _ H2) as [E _]. rewrite E. exact H1.
+  - intros st' a b HP _ _ _. apply adv_h6_bulk_eq. exact HP.
 Qed.
